@@ -102,11 +102,18 @@ fn enable_nil_env_mode_for_stepping_23_or_greater(
  */
 fn create_let_env_expression(args: Rc<SExp>) -> BodyForm {
     match args.borrow() {
-        SExp::Cons(l, a, b) => cons_bodyform(
-            l.clone(),
-            Rc::new(create_let_env_expression(a.clone())),
-            Rc::new(create_let_env_expression(b.clone())),
-        ),
+        SExp::Cons(l, a, b) => {
+            // (@ name substructure) binds name to this whole part of the environment.
+            if let Some((capture, _substructure)) = is_at_capture(a.clone(), b.clone()) {
+                return BodyForm::Value(SExp::Atom(l.clone(), capture));
+            }
+
+            cons_bodyform(
+                l.clone(),
+                Rc::new(create_let_env_expression(a.clone())),
+                Rc::new(create_let_env_expression(b.clone())),
+            )
+        }
         _ => {
             let cloned: &SExp = args.borrow();
             BodyForm::Value(cloned.clone())
